@@ -21,8 +21,15 @@ def main():
             data = json.load(f)
         rec = core.set_recorder(core.Recorder(prop))
         cfg = core.Cfg(prop, "quick", 0, 0, 1, 600)
+        if any(isinstance(w, dict) and w.get("caller_environment") for w in data.get("witnesses", [])):
+            core.caller_environment()
         n = 0
         for w in data.get("witnesses", []):
+            if isinstance(w, dict) and w.get("route") and w.get("tree"):
+                from .workloads import copies as _copies
+
+                _copies.replay(w)
+                continue
             mod.replay(rec, cfg, w)
         for key, v in rec.violations.items():
             n += v["count"]
@@ -38,6 +45,9 @@ def main():
     rec = core.set_recorder(core.Recorder(prop))
     cfg = core.Cfg(prop, tier, seed, shard, nshards, deadline)
     rec.arm("interpreter:python -O (asserts stripped)" if sys.flags.optimize else "interpreter:default")
+    if shard == 2 % nshards and not os.environ.get("VERIF_NO_CALLER_ENV"):
+        core.caller_environment()
+        rec.arm("environment:caller's decimal context and numpy print options changed")
     from .workloads import drive as _drive
 
     _drive.EXPIRED[0] = cfg.out_of_time
